@@ -17,7 +17,7 @@ parsers report, and `encode (decode bytes) = bytes` (the independent encoder yie
 
 `WF` predicates are the field ranges of the wire formats plus the canonical-form conditions the code
 itself documents (no extended status with status 0; narrowest EPATH segment form; port ≥ 15 in extended
-form; a Large Forward Open's parameters > 0xFFFF).
+form).
 -/
 namespace Cpppo.Codec
 open Cpppo
